@@ -38,7 +38,9 @@ var opNames = []string{"avail", "setlist", "advance", "runtimer", "current"}
 // index 5 is never listed (reports for an unknown endpoint); 6.. are used by
 // "big" plans only (lists of up to 40 endpoints)
 var universe, bigIdx = func() ([]string, []int) {
-	u := []string{"a", "b", "c", "d", "e", "zz-unknown"}
+	// endpoint names are opaque strings (gRPC targets may carry commas, e.g.
+	// "ipv4:10.0.0.1:443,10.0.0.2:443"): one name is the comma-join of two others
+	u := []string{"a", "b", "a,b", "d", "e", "zz-unknown"}
 	idx := []int{0, 1, 2, 3, 4}
 	for i := 0; i < 35; i++ {
 		idx = append(idx, len(u))
@@ -245,6 +247,10 @@ func Generate(r *rand.Rand, profile string, concurrent bool) *Plan {
 }
 
 // ---------------------------------------------------------------- model
+
+// linSep separates names inside the linearizability model's state strings: a
+// character no endpoint name contains (names themselves may contain commas).
+const linSep = "\x00"
 
 type stKind int
 
@@ -763,16 +769,16 @@ func (s *sim) checkLinearizable(res *simkit.Result) {
 	if len(s.lin) > 40 {
 		return
 	}
-	init := linState{list: strings.Join(names(s.plan.Init), ","), cur: names(s.plan.Init)[0]}
+	init := linState{list: strings.Join(names(s.plan.Init), linSep), cur: names(s.plan.Init)[0]}
 	model := porcupine.Model{
 		Init: func() interface{} { return init },
 		Step: func(st, in, out interface{}) (bool, interface{}) {
 			state := st.(linState)
 			h := in.(*histOp)
-			list := strings.Split(state.list, ",")
+			list := strings.Split(state.list, linSep)
 			avail := map[string]bool{}
 			if state.avail != "" {
-				for _, e := range strings.Split(state.avail, ",") {
+				for _, e := range strings.Split(state.avail, linSep) {
 					avail[e] = true
 				}
 			}
@@ -806,7 +812,7 @@ func (s *sim) checkLinearizable(res *simkit.Result) {
 				av = append(av, e)
 			}
 			sort.Strings(av)
-			ns := linState{list: strings.Join(list, ","), avail: strings.Join(av, ","), cur: linRule(list, avail, state.cur)}
+			ns := linState{list: strings.Join(list, linSep), avail: strings.Join(av, linSep), cur: linRule(list, avail, state.cur)}
 			return true, ns
 		},
 		Equal: func(a, b interface{}) bool { return a.(linState) == b.(linState) },
@@ -830,7 +836,7 @@ func (s *sim) checkLinearizable(res *simkit.Result) {
 			}
 		}
 		res.Violations = append(res.Violations, simkit.Violation{Property: "C13", Rule: "not-linearizable", Sig: "C13|not-linearizable|r=false|d=false",
-			Msg: "the concurrent history has no linearization under the sequential statement (initial list " + init.list + "): " + strings.Join(desc, "; "), Op: len(s.plan.Ops)})
+			Msg: "the concurrent history has no linearization under the sequential statement (initial list " + strings.ReplaceAll(init.list, linSep, " ") + "): " + strings.Join(desc, "; "), Op: len(s.plan.Ops)})
 	case porcupine.Unknown:
 		res.Count("probe:linearizability_timeout", 1) // inconclusive: never reported
 	}
